@@ -80,6 +80,11 @@ pub fn fixed_programs() -> Vec<FixedProg> {
             lines: vec![head, "20 FOR I=1 TO 2: PRINT \"a\";I;", "30 PRINT T9;Y: NEXT I", "40 PRINT T9+1"],
             replies: vec![],
         },
+        FixedProg {
+            name: "a loop through the start of line 0",
+            lines: vec!["0 K=K+1: PRINT K;: IF K<3 THEN 0", head, "20 PRINT \"e\";Y;K"],
+            replies: vec![],
+        },
         // arrays the program dimensions only later
         FixedProg {
             name: "DIM after the first statements",
@@ -181,7 +186,8 @@ pub fn run_lines_with_breaks(lines: &[String], replies: &[String], breaks: &[usi
         hist.push(e);
     }
     s.recs.clear();
-    s.it.randomize(7);
+    // the generator as a session finds it: never seeded, nothing drawn yet
+    s.it.randomize(0);
     let mut replies = replies.iter();
     let mut transcript: Vec<String> = vec![];
     let e = Ev::Line("RUN".into());
